@@ -393,8 +393,45 @@ pub fn run_check(id: &str, tier: &str, seed: u64) -> i32 {
     let n = |q: u64, t: u64| if thorough { t } else { q };
     use Profile::*;
     let sim = |profiles: &[Profile], rules: &[&str], runs: u64, text: &str, level: &str| -> i32 {
-        let agg = campaign(id, rules, seed, thorough, profiles, runs, if thorough { 1500 } else { 100 });
-        conclude(id, tier, seed, level, &agg, rules, text, sim_assumptions(), t0, json!({}), None)
+        // C01: sessions through the real rpc.rs in which lightningd answers one RPC late, beside the
+        // SIM campaign (they mostly wait)
+        let late_handle = match (std::env::var("VMON_PLUGIN_BIN"), id == "C01") {
+            (Ok(bin), true) => Some(std::thread::spawn(move || crate::e2e_checks::late_reply_sessions(&bin, seed, if thorough { 24 } else { 6 }))),
+            _ => None,
+        };
+        let mut agg = campaign(id, rules, seed, thorough, profiles, runs, if thorough { 1500 } else { 100 });
+        let mut extra = json!({});
+        let mut e2e_exit = 0;
+        if let Some(h) = late_handle {
+            let r = match h.join() {
+                Ok(r) => r,
+                Err(_) => crate::e2e::E2eResult { coverage: json!("e2e thread panicked"), violations: BTreeMap::new(), evals: BTreeMap::new(), inconclusive: vec!["late reply sessions panicked".into()] },
+            };
+            extra["e2e_late_reply_sessions(real rpc.rs)"] = r.coverage;
+            extra["e2e_rule_evaluations"] = json!(r.evals);
+            for (sig, (n, w)) in r.violations.iter() {
+                if !sig.starts_with("R01") {
+                    *agg.cross.entry(format!("e2e:{sig}")).or_insert(0) += n;
+                    continue;
+                }
+                let dir = format!("{}/replays", out_dir());
+                let _ = std::fs::create_dir_all(&dir);
+                let path = format!("{dir}/{id}-e2e-{}.json", sig.replace('|', "_").chars().take(80).collect::<String>());
+                let _ = std::fs::write(&path, serde_json::to_string_pretty(&json!({"property": id, "engine": "e2e-late-reply", "signature": sig, "witness": w, "count": n, "seed": seed})).unwrap());
+                println!("VIOLATION property={id} replay={path}");
+                eprintln!("  {sig}: {}", w.chars().take(600).collect::<String>());
+                e2e_exit = 1;
+            }
+            for i in r.inconclusive {
+                *agg.inconclusive.entry(format!("e2e: {i}")).or_insert(0) += 1;
+            }
+        }
+        let rc = conclude(id, tier, seed, level, &agg, rules, text, sim_assumptions(), t0, extra, None);
+        if e2e_exit == 1 {
+            1
+        } else {
+            rc
+        }
     };
     let rt = "random seeded runs of the real manager/store/provider/block-watcher against SimNode under a hostile scheduler; a case is one run; distinct_nontrivial = number of distinct abstract traces (sequence of (step kind, per-hash durable record, parts-status multiset, held count)) among runs in which a target rule was actually evaluated";
     let fe = |profiles: &[Profile], rules: &[&str], runs: u64, text: &str| -> i32 {
@@ -402,7 +439,7 @@ pub fn run_check(id: &str, tier: &str, seed: u64) -> i32 {
         let transport_handle = match (std::env::var("VMON_PLUGIN_BIN"), id == "C02" || id == "C05") {
             (Ok(bin), true) => {
                 let slow: Vec<u64> = if id == "C02" { if thorough { vec![35, 35, 65] } else { vec![33] } } else { vec![] };
-                let drops = if id == "C05" { if thorough { 24 } else { 6 } } else { 0 };
+                let drops = if thorough { 24 } else { 6 };
                 Some(std::thread::spawn(move || crate::e2e_checks::pay_transport_sessions(&bin, seed, &slow, drops)))
             }
             _ => None,
@@ -553,7 +590,7 @@ pub fn run_check(id: &str, tier: &str, seed: u64) -> i32 {
                 v.detail = format!("[classification product case] {}", v.detail);
             }
             merge(&mut agg, prod);
-            conclude(id, tier, seed, "exploration", &agg, &rules, "the finite product invoice{amount present/absent} x signer{payee, explicit payee, explicit payee signed by another key, signature recovering to another key, explicit payee with the other recovery id} x hints{none, other, self last, self not last, other then self last} x hash{equal, different} x amount field{absent, equal, +1, -1, padded equal, empty, 9 bytes, single zero byte} x allow_self x forward_msat{present, absent} (3200 cases, each one funded single-HTLC run, pay failing in half of them so that the reported payee is observed), plus random seeded runs of the Classify/Hashes profiles; distinct_nontrivial = distinct abstract traces among runs in which R10 was evaluated", sim_assumptions(), t0, json!({"classification_product_cases": n_prod}), None)
+            conclude(id, tier, seed, "exploration", &agg, &rules, "the finite product invoice{amount present/absent} x signer{payee, explicit payee, explicit payee signed by another key, signature recovering to another key, explicit payee with the other recovery id} x hints{none, other, self last, self not last, other then self last} x hash{equal, different} x amount field{absent, equal, +1, -1, padded equal, empty, 9 bytes, single zero byte} x allow_self x forward_msat{present, absent} x amount record {after, before} the invoice record (6000 cases, each one funded single-HTLC run, pay failing in half of them so that the reported payee is observed), plus random seeded runs of the Classify/Hashes profiles; distinct_nontrivial = distinct abstract traces among runs in which R10 was evaluated", sim_assumptions(), t0, json!({"classification_product_cases": n_prod}), None)
         }
         "C11" => sim(&[Timeout, Mixed], &["R11a", "R11b", "R11c"], n(80_000, 1_500_000), rt, "exploration"),
         "C13" => sim(&[PassThrough, Mixed], &["R13a", "R13b"], n(80_000, 1_500_000), rt, "exploration"),
@@ -665,8 +702,21 @@ pub fn run_prov_check(id: &str, tier: &str, seed: u64) -> i32 {
             });
         }
     });
-    let st = total.into_inner().unwrap();
+    let mut st = total.into_inner().unwrap();
     let incomplete = incomplete.into_inner().unwrap();
+    // C16 through the real rpc.rs: the connection dies after lightningd accepted the pay command
+    // (the wrapper sees a transport error while a part is pending; the part then completes)
+    let mut e2e_cov = json!(null);
+    if let (Ok(bin), true) = (std::env::var("VMON_PLUGIN_BIN"), id == "C16") {
+        let r = crate::e2e_checks::pay_transport_sessions(&bin, seed, &[], if thorough { 24 } else { 6 });
+        e2e_cov = r.coverage;
+        for (sig, (n, w)) in r.violations {
+            if sig.starts_with("R02|e2e-not-settled-after-transport-error") {
+                st.violations.insert(format!("R16b|e2e-failure-reported-while-part-pending ({sig})"), (n, w));
+            }
+        }
+        *st.evals.entry("R16b-e2e").or_insert(0) += r.evals.get("R05-e2e").copied().unwrap_or(0);
+    }
     // the full manager simulation asserts the same at every pay return implicitly through R02/R01b;
     let rules: &[&str] = if id == "C15" { &["R15a", "R15b"] } else { &["R16a", "R16b"] };
     let known = load_known();
@@ -711,6 +761,7 @@ pub fn run_prov_check(id: &str, tier: &str, seed: u64) -> i32 {
             "distinct_return_contexts": st.classes.iter().map(|(k, v)| (k.to_string(), v.len())).collect::<BTreeMap<_, _>>(),
             "bound": if id == "C15" { "<= 3 parts (4 pending in thorough) in every initial status mix, codes 202/203/204/209 (208 when the part is unknown), one read fault in thorough" } else { "pay creating <= 2 parts (3 thorough), every outcome {complete,pending,failed,failed+warning,rpc error} at every point, every resolution order afterwards" },
             "known_findings_matched": seen_known,
+            "e2e_pay_transport_sessions(real rpc.rs)": e2e_cov,
         }),
         assumptions: vec!["SimNode sendpay semantics (DESIGN 2.2 assumptions 1-4)".into(), "effects and replies of an RPC are fused in this engine: the interleaving that matters is RPC effect order relative to part resolutions".into()],
         wall_s: t0.elapsed().as_secs_f64(),
